@@ -42,6 +42,11 @@ pub trait SeqOps {
     fn mask(&self, i: usize, ctx: Ctx) -> Vec<bool>;
     /// Serialize a lying iterator over value i announcing `announce` items.
     fn liar(&self, i: usize, announce: usize, ctx: Ctx) -> Out<usize>;
+    /// Store value i, load it back (loader 1 `load_mem`, 3 `mmap`) as `MemCase<&[T]>`, then
+    /// serialize the LOADED structure again through a scripted writer with deviation `dev`
+    /// (None: only count the choice points): (choice points, attempts to free the borrowed
+    /// slice, backing region unchanged).
+    fn reserialize_loaded(&self, i: usize, loader: u8, dev: Option<(usize, u8)>) -> Out<(usize, usize, bool)>;
     /// Number of bytes that `Vec<T>::deserialize_full` consumes from `bytes`.
     fn full_consumed(&self, bytes: &[u8]) -> Out<usize>;
     /// Standalone stream of a lying iterator over value i announcing `announce` items.
@@ -188,6 +193,28 @@ macro_rules! seq_ops {
                 let mut sink: Vec<u8> = Vec::new();
                 o3(guarded(|| ser_ctx!(SerIter::from(Liar { inner: v.iter(), announce }), ctx, &mut sink).map_err(|e| format!("{:?}", e))))
             }
+            fn reserialize_loaded(&self, i: usize, loader: u8, dev: Option<(usize, u8)>) -> Out<(usize, usize, bool)> {
+                let vals = self.0.borrow();
+                let v: &Vec<$t> = &vals[i];
+                let path = format!("{}/c09-reser-{}.bin", vcore::checks3::scratch(), std::process::id());
+                o3(guarded(|| -> Result<(usize, usize, bool), String> {
+                    v.store(&path).map_err(|e| format!("store: {:?}", e))?;
+                    let case = if loader == 1 { <Vec<$t>>::load_mem(&path) } else { <Vec<$t>>::mmap(&path, epserde::deser::Flags::empty()) }.map_err(|e| format!("load: {}", e))?;
+                    let (_, base, len) = case.__verif_backend();
+                    let region = |b: *const u8, l: usize| if b.is_null() { 0 } else { xxhash_rust::xxh3::xxh3_64(unsafe { core::slice::from_raw_parts(b, l) }) };
+                    let before = region(base, len);
+                    let mut w = ScriptWriter::new(Script { dev: dev.into_iter().collect() });
+                    protect(&[case.as_ptr() as usize]);
+                    let r = guarded(|| (*case).serialize(&mut w).map(|_| ()).map_err(|e| format!("{:?}", e)));
+                    let freed = unprotect();
+                    let same = region(base, len) == before;
+                    let npoints = w.log.len();
+                    drop(r);
+                    drop(case);
+                    let _ = std::fs::remove_file(&path);
+                    Ok((npoints, freed, same))
+                }))
+            }
             fn full_consumed(&self, bytes: &[u8]) -> Out<usize> {
                 let mut cur = std::io::Cursor::new(bytes);
                 o3(guarded(|| { <Vec<$t>>::deserialize_full(&mut cur).map_err(|e| err_kind(&e))?; Ok(cur.position() as usize) }))
@@ -248,6 +275,7 @@ macro_rules! seq_ops {
                 }
             }
             fn liar(&self, _i: usize, _announce: usize, _ctx: Ctx) -> Out<usize> { unreachable!() }
+            fn reserialize_loaded(&self, _i: usize, _loader: u8, _dev: Option<(usize, u8)>) -> Out<(usize, usize, bool)> { Out::Err("not-applicable".into()) }
             fn full_consumed(&self, bytes: &[u8]) -> Out<usize> {
                 let mut cur = std::io::Cursor::new(bytes);
                 o3(guarded(|| { <Vec<$t>>::deserialize_full(&mut cur).map_err(|e| err_kind(&e))?; Ok(cur.position() as usize) }))
@@ -326,6 +354,38 @@ pub fn borrowed_faults(ops: &dyn SeqOps, cx: &mut Cx, i: usize, want: &Val, srcs
                 }
             }
         }
+}
+
+/// The C09 part over re-serialized loaded structures: a `MemCase<&[T]>` serialized again
+/// through a writer that fails or unwinds at every point; the backing memory of the case is
+/// neither freed (the slice is an interior pointer of it) nor changed, and the case can still
+/// be dropped normally.
+pub fn c09_reserialize(ops: &dyn SeqOps, cx: &mut Cx) {
+    if !ops.has_iter() { cx.outcome("not-applicable-deep-items"); return; }
+    let n = ops.build(cx.tier.pick(30, 200));
+    // the longest of the first values: its slice is a real interior pointer
+    for i in (0..n).rev().take(cx.tier.pick(2, 6)) {
+        let want = ops.val(i);
+        cx.case(vcore::cx::hash64(&[cx.type_id.as_bytes(), format!("{:?}", want).as_bytes()]), true);
+        for loader in [1u8, 3] {
+            let np = match ops.reserialize_loaded(i, loader, None) { Out::Ok((np, _, _)) => np, o => { cx.violate(&format!("reserialize-loaded-{}", o.class()), json!({"value": vdesc(i, &want), "loader": loader, "observed": o.describe()})); continue; } };
+            for p in 0..np {
+                for alt in [4u8, 5] {
+                    cx.evals += 1;
+                    cx.transitions += 1;
+                    match ops.reserialize_loaded(i, loader, Some((p, alt))) {
+                        Out::Ok((_, freed, same)) => {
+                            cx.outcome("reserialized-under-fault");
+                            if freed > 0 { cx.violate("backing-memory-of-loaded-structure-freed-by-reserialization", json!({"value": vdesc(i, &want), "loader": loader, "point": p, "writer": if alt == 5 { "unwinds" } else { "fails" }, "free_attempts": freed})); }
+                            if !same { cx.violate("backing-memory-of-loaded-structure-changed-by-reserialization", json!({"value": vdesc(i, &want), "loader": loader, "point": p})); }
+                        }
+                        o => cx.violate(&format!("reserialize-loaded-{}", o.class()), json!({"value": vdesc(i, &want), "loader": loader, "point": p, "observed": o.describe()})),
+                    }
+                }
+            }
+        }
+        if i + 1 == n { cx.sample(json!({"reserialized_after_loading": cx.type_id, "items": format!("{:?}", want), "loaders": ["load_mem", "mmap"], "writer_answers": ["fails", "unwinds"]})); }
+    }
 }
 
 /// The C07 part over the sequence wrappers (the universe of the runner holds owned values
